@@ -624,6 +624,11 @@ def _thread_body(ev, key):
     ev.wait()
 
 
+class _QueueWorker(threading.Thread):
+    def __len__(self):
+        return 0
+
+
 def start_thread(a, ctx):
     key = a['key']
     ev = threading.Event()
@@ -670,8 +675,13 @@ def start_thread(a, ctx):
         if a.get('name') is None:
             rec['name'] = t.name
         started.set()
+    elif a.get('api') == 'threading_falsy':
+        # a worker whose thread object is also a container (len(worker) =
+        # jobs waiting): false while its queue is empty
+        t = _QueueWorker(target=body, name=a.get('name'))
     else:
         t = threading.Thread(target=body, name=a.get('name'))
+    if a.get('api') in (None, 'threading', 'threading_falsy'):
         t.daemon = bool(a.get('daemon', True))
         t.start()
         rec['thread'] = t
